@@ -2,10 +2,13 @@
 //@ rw R6 1 <<events: RefCell<Events>,>> => <<pub(crate) events: RefCell<Events>,>>
 //@ rw R6 1 <<level_triggered: Option<RefCell<HashMap<usize, (Raw, polling::Event)>>>,>> => <<pub(crate) level_triggered: Option<RefCell<HashMap<usize, (Raw, polling::Event)>>>,>>
 //@ enditem
+//@ include sys_poll_real_specs
 //@ region poll_witness props=C12,C14
 impl Poll {
     /// monotone history witness (DESIGN 2.12): poll(timeout) has been called on this Poll with this timeout
     pub uninterp spec fn w_polled(&self, timeout: Option<Duration>) -> bool;
+    /// the OS poller behind this Poll (ghost accessor for the pub(crate) field)
+    pub closed spec fn pl(&self) -> Poller { *self.poller }
 }
 //@ endregion
 //@ open src/sys.rs / impl Poll
@@ -13,12 +16,9 @@ impl Poll {
 //@ spec
         ensures self.w_polled(timeout),
 //@ enditem
-//@ item src/sys.rs / impl Poll / fn register props=C16 sigonly ret=r
-//@ enditem
-//@ item src/sys.rs / impl Poll / fn reregister props=C16 sigonly ret=r
-//@ enditem
-//@ item src/sys.rs / impl Poll / fn unregister props=C16 sigonly ret=r
-//@ enditem
+//@ include sys_poll_real_body
 //@ item src/sys.rs / impl Poll / fn poller props=C16 sigonly ret=r
+//@ spec
+        ensures **r == self.pl(),
 //@ enditem
 //@ close
